@@ -12,6 +12,7 @@ require (
 	github.com/cosmos/cosmos-sdk v0.50.9
 	github.com/ethereum/go-ethereum v1.10.22
 	github.com/tellor-io/layer v0.0.0
+	google.golang.org/protobuf v1.34.2
 )
 
 require (
@@ -177,7 +178,6 @@ require (
 	google.golang.org/genproto/googleapis/api v0.0.0-20240515191416-fc5f0ca64291 // indirect
 	google.golang.org/genproto/googleapis/rpc v0.0.0-20240709173604-40e1e62336c5 // indirect
 	google.golang.org/grpc v1.64.1 // indirect
-	google.golang.org/protobuf v1.34.2 // indirect
 	gopkg.in/ini.v1 v1.67.0 // indirect
 	gopkg.in/typ.v4 v4.3.0 // indirect
 	gopkg.in/yaml.v2 v2.4.0 // indirect
